@@ -12,6 +12,7 @@ import (
 	"io"
 	"net"
 	"runtime"
+	"slices"
 	"strings"
 	"sync"
 	"sync/atomic"
@@ -173,6 +174,33 @@ type lifeNet struct {
 	// onListen is called (in a goroutine) with each successful listener (passive role).
 	onListen func(n int, l *lifeListener)
 	wg       sync.WaitGroup // harness-side peer goroutines
+	leaked   []string       // harness-owned objects force-closed by waitPeers (still reported by openResources)
+}
+
+// waitPeers waits for the harness-side peer goroutines. A peer goroutine serving a connection ends when the library
+// closes its end; if the library LEAKED a socket (handed over by the dialer / listener and never closed) that wait would
+// never end and the leak would surface as a harness time-out instead of an input. After a grace period the still-open
+// harness-owned objects are remembered in `leaked` (openResources keeps reporting them) and force-closed underneath.
+func (n *lifeNet) waitPeers() {
+	done := make(chan struct{})
+	go func() { n.wg.Wait(); close(done) }()
+	select {
+	case <-done:
+		return
+	case <-time.After(4 * time.Second):
+	}
+	n.mu.Lock()
+	for _, c := range n.conns {
+		if !c.closed.Load() {
+			n.leaked = append(n.leaked, fmt.Sprintf("conn#%d", c.id))
+			_ = c.Conn.Close()
+		}
+	}
+	n.mu.Unlock()
+	select {
+	case <-done:
+	case <-time.After(10 * time.Second): // something else is wedged: let the caller's own oracles and watchdogs speak
+	}
 }
 
 func (n *lifeNet) track(c net.Conn) *lifeConn {
@@ -352,9 +380,9 @@ func (n *lifeNet) listen(ctx context.Context, _, _ string) (net.Listener, error)
 func (n *lifeNet) openResources() []string {
 	n.mu.Lock()
 	defer n.mu.Unlock()
-	var out []string
+	out := append([]string(nil), n.leaked...)
 	for _, c := range n.conns {
-		if !c.closed.Load() {
+		if !c.closed.Load() && !slices.Contains(n.leaked, fmt.Sprintf("conn#%d", c.id)) {
 			out = append(out, fmt.Sprintf("conn#%d", c.id))
 		}
 	}
